@@ -7,13 +7,22 @@ pub fn replay(prop: &'static str, engine: &str, case: &Value, path: &str) -> i32
         "tinylfu" => crate::lfu::replay_tinylfu(prop, case),
         "sampledlfu" => crate::lfu::replay_sampled(case),
         "grid" => crate::grid::replay_point(case["point"].as_str().unwrap_or("")),
-        "faults" | "faults-convert" => crate::faults::replay_case(case),
+        "faults" | "faults-convert" => crate::faults::replay_case(case)
+            .into_iter()
+            .map(|mut f| {
+                f.prop = prop; // the same hazards are reported under C18 and, from the first pass, under C03
+                f
+            })
+            .collect(),
         "probes" => crate::probes::replay_case(case),
         "conversions" => crate::grid::conversion_determinism(crate::plan::Tier::Thorough).violations.into_iter().map(|e| e.finding).collect(),
         "churn" => crate::grid::churn(crate::plan::Tier::Quick).violations.into_iter().map(|e| e.finding).collect(),
         "capacity-sweep" => crate::sweeps::capacity_sweep(crate::plan::Tier::Thorough).violations.into_iter().map(|e| e.finding).collect(),
         "quota-sweep" => crate::sweeps::quota_sweep(crate::plan::Tier::Thorough).violations.into_iter().map(|e| e.finding).collect(),
         "callback-unwind" => crate::faults::run_callback_consistency(crate::plan::Tier::Quick).violations.into_iter().map(|e| e.finding).collect(),
+        "bounds-after-panic" => crate::faults::run_bounds_after_panic(crate::plan::Tier::Quick).violations.into_iter().map(|e| e.finding).collect(),
+        "value-types" => crate::zst::run(prop, crate::plan::Tier::Quick).violations.into_iter().map(|e| e.finding).collect(),
+        "sampledlfu-large" => crate::lfu::run_sampled("C20", crate::plan::Tier::Quick).violations.into_iter().map(|e| e.finding).collect(),
         "putresult" => crate::grid::put_result_structural().violations.into_iter().map(|e| e.finding).collect(),
         other => {
             eprintln!("no replay support for engine {:?}", other);
